@@ -1,7 +1,7 @@
 //! C06 — function recovery reproduces sequential machine-code execution.
 //!
 //! request  = `fnrec <arch> <0xbase> <hexcode> <0xentry> m=<head>-<tail>,… steps=<n> | <state>`
-//! answer   = `fn <FIL of the lifted function> | trace <a0,a1,…> | post <post line> | oracle (at <0xaddr> <btr>)…`
+//! answer   = `fn <FIL of the lifted function> | trace <a0,a1,…> | post <post line> | oracle (at <0xaddr> <btr>)… | tr (at <0xaddr> <btr|empty>)…`
 //!            or `err:…` / `panic@…` from translate_function_extended.
 //!   * `trace`/`post`: falcon's executor (`Driver::step`) over the lifted function from the entry, recording the
 //!     native address of every IL instruction it executes (consecutive duplicates removed), for at most `steps`
@@ -10,6 +10,10 @@
 //!   * `oracle`: for every address the single-step reference visits, the lifted form of the ONE native
 //!     instruction at that address (MIPS: a branch together with its delay slot), obtained from the same
 //!     translator by lifting the bytes at that address and keeping the first instruction.
+//!   * `tr`: the translation results the work list of `translate_function_extended` uses, in address order
+//!     (the work list is replicated here with the real `translate_block` on `get_bytes(addr, 64)`; `empty` = no
+//!     bytes); the Lean model of the assembly algorithm (FalconModel/Assemble.lean) is run on them and its result
+//!     compared with the recovered function.
 //! The Lean driver recomputes both runs with its own IL semantics and compares; it also checks the structural
 //! clauses (no dangling edge, entry = function address, every instruction address in exactly one block).
 use falcon::architecture::{Architecture, Endian};
@@ -97,6 +101,46 @@ fn single(a: &dyn Architecture, mem: &backing::Memory, pc: u64) -> Result<BlockT
     Ok(BlockTranslationResult::new(vec![first], pc, (next - pc) as usize, vec![(next, None)]))
 }
 
+/// the work list of `translate_function_extended`, replicated with the real `translate_block`
+fn worklist(a: &dyn Architecture, mem: &backing::Memory, r: &Req, opts: &Options) -> Vec<String> {
+    use std::collections::VecDeque;
+    let mut queue: VecDeque<u64> = VecDeque::new();
+    let mut results: BTreeMap<u64, String> = BTreeMap::new();
+    queue.push_front(r.entry);
+    for (h, t) in &r.manual {
+        queue.push_back(*h);
+        queue.push_back(*t);
+    }
+    while let Some(addr) = queue.pop_front() {
+        if results.contains_key(&addr) {
+            continue;
+        }
+        let bytes = mem.get_bytes(addr, 64);
+        if bytes.is_empty() {
+            results.insert(addr, "empty".to_string());
+            continue;
+        }
+        let b = match catch(|| a.translator().translate_block(&bytes, addr, opts)) {
+            Some(Ok(b)) => b,
+            Some(Err(e)) => {
+                results.insert(addr, err_str(&e).replace(':', "-"));
+                break;
+            }
+            None => {
+                results.insert(addr, "panic".to_string());
+                break;
+            }
+        };
+        for s in b.successors().iter() {
+            if !queue.contains(&s.0) {
+                queue.push_back(s.0);
+            }
+        }
+        results.insert(addr, btr_str(&b));
+    }
+    results.iter().map(|(a, b)| format!("(at 0x{:x} {})", a, b)).collect()
+}
+
 fn answer(line: &str) -> String {
     let r = match parse(line) {
         Some(r) => r,
@@ -166,12 +210,14 @@ fn answer(line: &str) -> String {
         }
     }
     let ora: Vec<String> = oracle.iter().map(|(a, b)| format!("(at 0x{:x} {})", a, b)).collect();
+    let tr = worklist(a.as_ref(), &mem, &r, &opts);
     format!(
-        "fn {} | trace {} | post {} | oracle {}",
+        "fn {} | trace {} | post {} | oracle {} | tr {}",
         fn_text,
         trace.iter().map(|a| format!("0x{:x}", a)).collect::<Vec<_>>().join(","),
         post,
-        ora.join(" ")
+        ora.join(" "),
+        tr.join(" ")
     )
 }
 
